@@ -58,6 +58,59 @@ META = dict(
 )
 
 
+C02_FILES = ("engine/monitor.go", "engine/taskqueue.go", "engine/processor.go", "pubsub/eventpump.go",
+             "interpreter/func_provider.go", "cmd/harness/c02.go")
+
+
+def race_run(ctx, shards):
+    """the quick-sized generator under the race detector. Reports are collected (GORACE log_path) instead of ending
+    the process; a report touching the code of this property is a violation, others are noted."""
+    import glob
+    import re
+    ctx.log("go: building harness with -race")
+    rbin = checklib.go_build(ctx, out="harness-race", race=True)
+    sub = checklib.Ctx("C02", "quick", ctx.seed + 1000)
+    saved = checklib.GOENV.get("GORACE")
+    checklib.GOENV["GORACE"] = "exitcode=0 log_path=" + os.path.join(sub.work, "racelog")
+    try:
+        rc_cases, rc_go, _, _ = checklib.run_cases(sub, rbin, "C02", shards=shards, budget_s=1500)
+        rmodel = checklib.run_driver(sub, "C02", rc_cases, shards=shards)
+        ctx.coverage["race_build_cases"] = len(rc_cases)
+        for i in sorted(rc_cases):
+            g = rc_go.get(i, "MISSING-RESULT").split(" ~ ")[0]
+            if g != rmodel.get(i, ("MISSING", {}))[0]:
+                rp = checklib.write_replay(ctx, "input", {"payload": rc_cases[i], "readable": decode(rc_cases[i]), "build": "-race"},
+                                           rmodel.get(i, ("MISSING", {}))[0], g, "./check C02 --replay <this file>", tag="race")
+                checklib.violation(ctx, rp, f"race-build go={g[:100]!r}")
+                break
+        reports = []
+        for f in glob.glob(os.path.join(sub.work, "racelog.*")):
+            reports += [b for b in open(f, errors="replace").read().split("==================") if "DATA RACE" in b]
+        mine, other = [], {}
+        for b in reports:
+            frames = re.findall(r"\s(/\S+\.go:\d+)", b)
+            if any(any(x in fr for x in C02_FILES) for fr in frames):
+                mine.append(b)
+            else:
+                key = " vs ".join(sorted(set(fr.split("/ecal/")[-1] if "/ecal/" in fr else os.path.basename(fr)
+                                              for fr in frames if "/runtime/" not in fr and "go-1." not in fr)[:4]))
+                other[key] = other.get(key, 0) + 1
+        ctx.coverage["race_reports_in_c02_code"] = len(mine)
+        ctx.coverage["race_reports_elsewhere"] = other
+        if other:
+            ctx.notes.append("race detector reports outside the code of C02 (not part of this property, see C09): " + json.dumps(other)[:600])
+        if mine:
+            rp = checklib.write_replay(ctx, "race", {"report": mine[0][:3000]}, "no data race in the cascade protocol code",
+                                       "race detector report", "./check C02 --tier thorough", tag="racereport")
+            checklib.violation(ctx, rp, "data race reported in the cascade protocol code")
+    finally:
+        if saved is None:
+            checklib.GOENV.pop("GORACE", None)
+        else:
+            checklib.GOENV["GORACE"] = saved
+        sub.cleanup()
+
+
 def run(ctx):
     thorough = ctx.tier == "thorough"
     ctx.log("lean: building", SPEC["lean_modules"])
@@ -83,26 +136,8 @@ def run(ctx):
     cases, gores, stats, infos = checklib.run_cases(ctx, binp, "C02", shards=shards, budget_s=3000 if thorough else 600)
     crashes = sum(len(i["crashes"]) for i in infos.values())
     ctx.log(f"harness: {len(cases)} cases, {crashes} crashes")
-    race_cases = 0
     if thorough:
-        # the same generator under the race detector (quick-sized run): a detected race ends the process => CRASH
-        ctx.log("go: building harness with -race")
-        rbin = checklib.go_build(ctx, out="harness-race", race=True)
-        sub = checklib.Ctx("C02", "quick", ctx.seed + 1000)
-        try:
-            rc_cases, rc_go, _, rc_infos = checklib.run_cases(sub, rbin, "C02", shards=shards, budget_s=1500)
-            rmodel = checklib.run_driver(sub, "C02", rc_cases, shards=shards)
-            race_cases = len(rc_cases)
-            for i in sorted(rc_cases):
-                g = rc_go.get(i, "MISSING-RESULT").split(" ~ ")[0]
-                if g != rmodel.get(i, ("MISSING", {}))[0]:
-                    rp = checklib.write_replay(ctx, "input", {"payload": rc_cases[i], "readable": decode(rc_cases[i]), "build": "-race"},
-                                               rmodel.get(i, ("MISSING", {}))[0], g, "./check C02 --replay <this file> (race build: --tier thorough)", tag="race")
-                    checklib.violation(ctx, rp, f"race-build go={g[:100]!r}")
-                    break
-        finally:
-            sub.cleanup()
-        cov["race_build_cases"] = race_cases
+        race_run(ctx, shards)
 
     model = checklib.run_driver(ctx, "C02", cases, shards=shards)
     canon, traces = {}, {}
